@@ -13,18 +13,22 @@ W1_ASSUME = [
 register('C04', world='w1:W1World', quick=18000, thorough=300000, level='exploration',
          rule="one evaluation = one seeded W1 run: 2-4 clients x 1-2+ graph ids, 2-40 interleaved store operations "
               "applied in lock step to the shared store, the one-graph-per-store store and PGModel; after every step "
-              "every graph the operation did not address is compared with its snapshot before the step. A run is "
+              "every graph the operation did not address is compared with its snapshot before the step and read through "
+              "the API (ids, existence, properties). Operations include opening another importer (with/without logger), "
+              "delete-all, direct re-import of a text saved earlier; 40% of runs keep one graph object per id across calls. A run is "
               "non-trivial if it executed at least one successful mutating operation; distinct = distinct event-log digest.",
          assumptions=W1_ASSUME, pinned_rules=PINNED_RULES)
 register('C05', world='w1:W1World', quick=18000, thorough=300000, level='exploration',
          rule="one evaluation = one seeded W1 run (see C04); every call's outcome class, returned value and the whole "
-              "store state are compared three ways (shared store, disjoint store, PGModel) after every step. Non-trivial: "
+              "store state are compared three ways (shared store, disjoint store, PGModel) after every step; dictionaries "
+              "handed to the library must come back unchanged (argument_untouched). Non-trivial: "
               ">=1 successful mutating operation; distinct = distinct event-log digest.",
          assumptions=W1_ASSUME, pinned_rules=PINNED_RULES)
 register('C06', world='w1:W1World', quick=18000, thorough=300000, level='exploration',
          rule="one evaluation = one seeded W1 run with a query-heavy mix; each neighbour/path query is answered by both "
               "backends and compared with an oracle computed from PGModel's edge list (set comprehension, BFS, brute-force "
-              "simple paths). Non-trivial: >=1 successful mutating operation; distinct = distinct event-log digest.",
+              "simple paths); half of the hop queries carry an explicit depth limit; the class alphabet contains names that "
+              "contain one another (Link / CompositeLink). Non-trivial: >=1 successful mutating operation; distinct = distinct event-log digest.",
          assumptions=W1_ASSUME + ["'loop-free' for path-with-hops is the library's own notion: the sub-graph induced by the path's nodes has no cycle"])
 register('C01', world='w1:W1World', level='exploration',
          parts=[{'world': 'w1:W1World', 'quick': 12000, 'thorough': 200000},
@@ -32,7 +36,8 @@ register('C01', world='w1:W1World', level='exploration',
          rule="one evaluation = one seeded W1 run with a round-trip-heavy mix: graphs built by the history are serialized "
               "(GraphML / JSON node-link) from both stores, the text is parsed independently (lxml/json) and compared with "
               "PGModel, re-imported through one of the four entry points (same or other store, id kept or reassigned), "
-              "compared again, re-serialized and validated. 40% of runs arm the file seam (ENOSPC, EIO, short write, "
+              "compared again, re-serialized and validated; a text saved by an earlier step is also loaded again after the "
+              "graph was edited or deleted (must give exactly the saved content). 40% of runs arm the file seam (ENOSPC, EIO, short write, "
               "missing file) with the relaxed oracle. A second part runs W2 (topology world) with a mix heavy in "
               "Topology.serialize -> load (string/file, GraphML/JSON, id kept/new) on topology-built slice and substrate "
               "models, incl. validate_graph() after import. Non-trivial: >=1 successful mutating op (and >=1 fired fault in fault runs).",
@@ -48,7 +53,12 @@ register('C20', level='exploration', world='w1t:W1TWorld',
               "existing / failing input) and re-run it with MemoryError raised there. (B) W1-T: 2-3 real threads x 2-4 "
               "store operations under a seeded baton scheduler (random switching or PCT priorities) pre-empting at every "
               "source line of the store modules and every lock operation; 30% of runs also raise MemoryError at a chosen "
-              "line event of a chosen thread. Non-trivial: part A >=1 successful mutating op; part B >=1 context switch. "
+              "line event of a chosen thread; 30% have a CONTESTED graph every thread imports into / adds to / deletes, judged "
+              "against all serial orders of the completed operations (sequential consistency); 12% are pure-contest runs "
+              "that also delete everything and open importers inside threads; 25% also pre-empt at the entry of every "
+              "function store code calls (finer than the property's stated granularity: open finding "
+              "F-C20-unlocked-iteration is only reachable there); at every pre-emption point the store singleton and "
+              "its lock must still be the instrumented objects. Non-trivial: part A >=1 successful mutating op; part B >=1 context switch. "
               "Distinct = distinct event-log digest (part B's log contains the complete schedule).",
          assumptions=W1_ASSUME + [
              "pre-emption granularity is a source line of networkx_property_graph.py / _disjoint.py / networkx_mixin.py; "
@@ -68,7 +78,10 @@ W2_ASSUME = [
 W2_RULE = ("one evaluation = one seeded W2 run: one user session drives an ExperimentTopology (80%%) or SubstrateTopology "
            "on the shared or the one-graph-per-store backend (optionally with a bystander graph in the same store) through "
            "3-32 calls drawn from the documented building/removing/property calls with a per-run random mix (swarm), valid and "
-           "deliberately invalid arguments, library-generated and caller-supplied ids, retained or fresh handles. After every "
+           "deliberately invalid arguments, library-generated and caller-supplied ids, retained or fresh objects (services, "
+           "ports, node-level services), any settable property given at creation and read back; in 35%% of runs a second "
+           "session builds another topology in the same store with interleaved steps, shared names and ids; in 20%% the "
+           "topology class is a trivial subclass. After every "
            "call the model graph is read white-box from the store. %s Distinct = distinct event-log digest.")
 register('C07', world='w2:W2World', quick=1500, thorough=40000, level='exploration',
          rule=W2_RULE % "C07 oracles after every call: the published rules (vocabularies pinned in the checker), one owner per "
@@ -80,14 +93,18 @@ register('C08', world='w2:W2World', quick=1800, thorough=40000, level='explorati
          rule=W2_RULE % "C08 oracle on every removal/disconnect/unpeer/prune of an existing element: the post-state equals the "
                         "pre-state minus an independently computed owned closure and peering artefacts (service-side port + link; "
                         "a link goes only when left with < 2 ends), everything else bit-identical; handles the call went through "
-                        "(and that agreed with the model before) list what a fresh lookup lists. Non-trivial: >=1 call changed the model.",
+                        "(and that agreed with the model before) list what a fresh lookup lists (after building calls the same is judged as "
+                        "a C07 view). Non-trivial: >=1 call changed the model.",
          assumptions=W2_ASSUME)
 register('C09', world='w2:W2World', quick=1400, thorough=40000, level='fault_enumeration',
          rule=W2_RULE % "C09: every call that raises must leave the abstract state identical. Besides naturally failing calls of "
-                        "the workload, 'failing' steps draw from a catalogue of ~35 failing-call templates (duplicate name/id per "
+                        "the workload (the first 40%% of a run build a model without them), 'failing' steps draw from a catalogue of ~60 failing-call templates (duplicate name/id per "
                         "element class, rejected property value at each position among good ones, the i-th of n interfaces bad for "
                         "every i and n<=3, unknown model, connected interface, sub-interface rules, absent targets, substrate id "
-                        "collisions); 35% of them enumerate the WHOLE applicable catalogue at that state, one call after another. "
+                        "collisions; a rejected argument at every construction step of add_switch / add_facility incl. derived ids taken, "
+                        "created by a set-up call first; arguments that are no interface at all or belong to another model; calls "
+                        "through the object of a removed element; self-peering; interfaces given as tuple/generator); enumerations of the "
+                        "WHOLE applicable catalogue are started preferably in states with components and services. "
                         "Non-trivial: >=1 call raised.",
          assumptions=W2_ASSUME + ["fault enumeration is complete per sampled state over the template x position catalogue; the states are sampled"])
 register('C02', world='w2:W2World', quick=1800, thorough=40000, level='exploration',
@@ -114,7 +131,7 @@ register('C11', world='w2:W2World', quick=1800, thorough=40000, level='explorati
          rule=W2_RULE % "C11 oracles: attributes collected from the topology object, and from its serialized model when the slice "
                         "validates, equal an order-free tally of the abstract state (sets for de-duplicated attributes, multisets "
                         "for per-resource ones); the PDP request lists exactly those attributes with the right category/type; the "
-                        "accounting summary equals a direct tally. Order is varied by history (creation order, delete/re-add, "
+                        "accounting summary, from the topology object and from the serialized model (which must still be there afterwards), equals a direct tally. Order is varied by history (creation order, delete/re-add, "
                         "re-import by the ASM path which renumbers storage) and by the hash seed of the batch. "
                         "Non-trivial: >=1 call changed the model.",
          assumptions=W2_ASSUME + ["'mirrored port inside the slice' is the library's definition: the port name is a local_name label of the first peer of a connected interface of a slice node",
@@ -123,7 +140,11 @@ register('C17', world='w2:W2World', quick=1800, thorough=40000, level='explorati
          rule=W2_RULE % "C17 oracles: a checkpoint (clone of the topology graph) is taken early; later, slivers of nodes / services / "
                         "dedicated ports present in both versions are diffed in both directions and compared with a reference diff "
                         "computed by subtracting the two abstract states (added/removed by name, LABELS/CAPACITIES/USER_DATA/"
-                        "SUB_INTERFACES flags), identical versions must give None, added(old->new) = removed(new->old). "
+                        "SUB_INTERFACES flags), identical versions must give None, added(old->new) = removed(new->old). Checkpoints roll; "
+                        "12%% of steps start a sequence fresh checkpoint -> 1-3 tracked edits on one element (or two sub-interfaces "
+                        "edited differently, or a component re-created under its name) -> comparison of exactly the enclosing "
+                        "element; 'diff_copy_edit' deep-copies a node sliver, edits the COPY through the sliver classes and "
+                        "demands exactly those edits in both directions. "
                         "Non-trivial: >=1 call changed the model.",
          assumptions=W2_ASSUME + ["elements are matched by name (as the library documents); SUB_INTERFACES is judged for SmartNIC components and dedicated ports only (the library's scope)"])
 
@@ -137,7 +158,10 @@ W3_RULE = ("one evaluation = one seeded W3 run: 1-3 site aggregates + one networ
            "nodes with label-only, capacity-only, both or no delegations; stitching elements shared by node id); 4-28 "
            "scheduler events: partition, re-key, send (partition + serialize), deliver (import, snapshot, merge; optionally an "
            "exception at the k-th backend call of the merge followed by rollback and re-delivery), duplicate, drop, re-send, "
-           "aggregate offline (unmerge) / back (new advertisement, new id), explicit snapshot / rollback; at the end every "
+           "aggregate offline (unmerge) / back (new advertisement, new id), explicit snapshot / rollback, an aggregate gaining "
+           "a delegated resource, another importer opened on the store; in half the runs the aggregate-model object is kept "
+           "between partitionings, in 20%% generate_adms gets graph ids for only one delegation id, in 15%% one aggregate "
+           "names its models after the delegation ids; every partition is re-keyed twice; at the end every "
            "message still in flight is delivered fault-free within 2 x #messages steps. %s Distinct = distinct event-log digest.")
 register('C13', world='w3:W3World', quick=1500, thorough=40000, level='exploration',
          rule=W3_RULE % "C13 oracles on every partition produced: one model per delegation id; every node delegated to the id present "
@@ -162,7 +186,10 @@ register('C19', world='w4:W4World', quick=20000, thorough=300000, level='explora
               "records every (statement, parameters) pair and answers with PRNG-scripted results (populated / empty / None); "
               "imports get 0,1,2,5,9 transient or persistent driver failures and retry on a simulated clock. Oracle over the "
               "recorded history: quotes/brackets balanced, no template residue, every used variable bound, every $parameter "
-              "supplied, a marker may appear in the text only inside one literal whose unescaped content is the value; retry "
+              "supplied, a marker may appear in the text only inside one literal whose unescaped content is the value; every call "
+              "is executed a second time with each caller-supplied value replaced by a harmless one (driver answering as before): "
+              "same outcome, statements equal outside their literals; property dictionaries come back unchanged; values may "
+              "be lists or numbers; retry "
               "count, simulated seconds and staging-file removal. Non-trivial: >=1 operation issued; distinct = distinct "
               "event-log digest.",
          assumptions=["the Cypher checker is structural (it accepts constructs it does not know): it can miss a malformed statement that happens to balance",
